@@ -11,10 +11,17 @@ theorem IENA_eq_sound (a b : Base) (h : Base.eq a b = true) : (Base.pack a).2 = 
   repeat' split
   all_goals simp_all
 
+/-- non-vacuity: equal although the (recomputed) size fields differ -/
+example : Base.eq { Base.fresh with key := 0x1A, payload := [5, 0], size := 9 }
+    { Base.fresh with key := 0x1A, payload := [5, 0], size := 0 } = true := by decide
+
 theorem IENA_eq_decode (a t : Base) (h : Lemmas.IENA.IENA_WF a) :
     ∃ b, (Base.pack a).2 = .ok b ∧ (Base.unpack t b).2 = .ok () ∧ Base.eq a (Base.unpack t b).1 = true := by
   obtain ⟨b, hp, hu, _⟩ := C01.IENA_roundtrip a t h
   exact ⟨b, hp, by rw [hu], by rw [hu]; simp [Base.eq]⟩
+
+example : Lemmas.IENA.IENA_WF { Base.fresh with key := 0x1A, timeusec := 10000000, payload := [5, 0] } := by
+  simp [Lemmas.IENA.IENA_WF, Base.fresh, IENA_DEFAULT_ENDFIELD]
 
 /-- IENA-M equality compares header fields, the cached payload and the parameter list; equal
     objects have equal parameters, hence equal encodings -/
@@ -30,5 +37,21 @@ theorem IENAM_eq_sound (a b : MState) (h : MState.eq a b = true) : (MState.pack 
     simp only [Base.eq, Bool.and_eq_true, beq_iff_eq] at hb ⊢
     obtain ⟨⟨⟨⟨⟨⟨h1, h2⟩, h3⟩, h4⟩, h5⟩, h6⟩, h7⟩ := hb
     simp_all
+
+example : MState.eq { MState.fresh with parameters := [⟨1, 2, [0xAA, 0xBB, 0xCC]⟩] }
+    { base := { Base.fresh with size := 77 }, parameters := [⟨1, 2, [0xAA, 0xBB, 0xCC]⟩] } = true := by decide
+
+/-- (added by the rev2 review: IENA-M had no decode clause) an object decoded, into an object in any prior state, from
+    a's encoding compares equal to a as `pack` left it -/
+theorem IENAM_eq_decode (a t : MState) (h : C01.IENAM_WF a) :
+    ∃ b, (MState.pack a).2 = .ok b ∧ (MState.unpack t b).2 = .ok () ∧
+      MState.eq (MState.pack a).1 (MState.unpack t b).1 = true := by
+  refine ⟨Lemmas.IENA.IENA_bytes (C01.IENAM_base a), by rw [C01.IENAM_pack_eq a h], by rw [C01.IENAM_unpack_eq a t h], ?_⟩
+  rw [C01.IENAM_unpack_eq a t h, C01.IENAM_pack_eq a h]
+  simp [MState.eq, Base.eq, C01.IENAM_base]
+
+example : C01.IENAM_WF { MState.fresh with parameters := [⟨1, 2, [0xAA, 0xBB, 0xCC]⟩, ⟨3, 4, []⟩] } := by
+  refine ⟨by simp [Lemmas.IENA.MParam_WF], ?_⟩
+  simp [Lemmas.IENA.IENA_WF, C01.IENAM_base, MState.fresh, Base.fresh, IENA_DEFAULT_ENDFIELD, Lemmas.IENA.encMb, Lemmas.IENA.padM]
 
 end Acra.Props.C14
